@@ -5,6 +5,7 @@ import PhotVerif.Driver.Detect
 import PhotVerif.Driver.Segm
 import PhotVerif.Driver.Deblend
 import PhotVerif.Driver.Lazy
+import PhotVerif.Driver.Catalog
 namespace PhotVerif.Driver
 
 /-- driver state: the objects that live across lines (state-machine models) -/
@@ -12,7 +13,7 @@ structure DState where
   segm : Option PhotVerif.Model.Segm.State := none
 
 def handlers : List (String → List String → Option String) :=
-  [handleGeom, handleMask, handleApSum, handleDetect, handleDeblend, handleLazy]
+  [handleGeom, handleMask, handleApSum, handleDetect, handleDeblend, handleLazy, handleCatalog]
 
 def dispatch (st : DState) (line : String) : DState × String :=
   match tokens line with
